@@ -199,6 +199,8 @@ func c14(c *Ctx) (*report.Result, error) {
 			res.Undec("O14.10", "fields of the handled struct containers", "", "no handled container of struct type found")
 		}
 	}
+	res.RuleDoc["O14.12"] = "every message is handed, whole, to the search-attribute visitor: saTranslator.TranslateRequest / TranslateResponse reach visitSearchAttributes with their own parameter on every path - a fast path that walks only the task kinds thought to carry search attributes misses the containers everywhere else (a mutable-state snapshot in a SyncWorkflowState task, say)"
+	checkTranslatorAlwaysVisits(c, res, "O14.12", []string{"saTranslator"})
 	res.RuleDoc["O14.11"] = "a translated blob comes back whole: translateOneDataBlob returns its input untouched or the serializer's own new blob, and never stores into a field of the blob it was given (the serializer writes proto3 and labels it so)"
 	checkInputBlobNotWritten(c, res, "O14.11")
 	res.RuleDoc["O14.9"] = "one matcher, chosen by configuration and not by map order: the translator returns the first entry of its per-namespace matcher map, so that map must have at most one entry - makeServerOptions refuses LenNamespaces() > 1 before building the translator, LenNamespaces is the length of the map FlattenMaps ranges over, and FlattenMaps / createStringMatchers emit exactly one entry per element"
